@@ -48,7 +48,9 @@ func crlValidReqs(x, issuer string) []req {
 
 // _perIterMarker encodes a per-iteration requirement on a nested loop in a req
 // (name prefixed by the loop key and a tab).
-func _perIterMarker(loop, name string, lp LP) req { return req{name: "\t" + loop + "\t" + name, lp: lp} }
+func _perIterMarker(loop, name string, lp LP) req {
+	return req{name: "\t" + loop + "\t" + name, lp: lp}
+}
 
 func checkC05(c *Check) {
 	c.Explain = "C05: internal/crl.CertCheckStatus with bundle validation and the entry scan inlined, decided on every path: (1) the OK verdict is reachable only through the exhaustion edge of the loop over ALL distribution points and, per iteration, only through the success edges of Fetch (err == nil), of the freshest-CRL refusal (no freshest-CRL extension in the certificate or a delta in the bundle), of bundle validation and of the entry scan; a failure edge that leaves the loop can reach only the Unknown (or an earlier Revoked) verdict; (2) bundle validation requires for the base and, when present, for the delta: CheckSignatureFrom(issuer) == nil with the issuer parameter, next-update not passed, every list extension either issuingDistributionPoint / deltaCRLIndicator or non-critical, and for the delta: both CRL numbers present, delta number strictly greater than the base number, indicator present, parsed and not above the base number; every rejection of the validator is guarded by the negation of one of these (two-sided); (3) verdict literals. Signature mathematics and the cRLSign/CA rule are inside CheckSignatureFrom (trusted)."
